@@ -45,8 +45,12 @@ macro_rules! native {
 
 #[macro_export]
 macro_rules! create_error {
-  ( $error:expr, $hooks:ident, $message:expr ) => {
-    match $hooks.call($error, &[Value::from($hooks.manage_str($message))]) {
+  ( $error:expr, $hooks:ident, $message:expr ) => {{
+    // the call may grow the fiber's stack, keep the message alive across that allocation
+    let message = $hooks.manage_str($message);
+    $hooks.push_root(message);
+
+    let result = match $hooks.call($error, &[Value::from(message)]) {
       Call::Ok(err) => {
         if err.is_obj_kind(ObjectKind::Instance) {
           Call::Err(LyError::Err(err.to_obj().to_instance()))
@@ -58,8 +62,11 @@ macro_rules! create_error {
         }
       },
       Call::Err(err) => Call::Err(err),
-    }
-  };
+    };
+
+    $hooks.pop_roots(1);
+    result
+  }};
 }
 
 #[macro_export]
